@@ -27,6 +27,14 @@ CHECKS = {
    text="Same engine, alphabet {fetch starts, insert returns, fetch resolves ok/err, lookups, remove, settle}: every caller waiting when insert(k,v) returns must receive v; results of fetches (or disk lookups) that belonged to a flight closed by an explicit insert must never surface in the cache or at a later caller. Exhaustive depth 5/6 x five algorithms + random.",
    note="The insert has returned before the late result is released (harness owns the order); truly simultaneous insert/resolve on two threads is not explored.",
    technique="model-based property testing with a harness-owned schedule (bounded-exhaustive + proptest random)"),
+ "C16": dict(engine="memsim", category="exploration", design="§5 C16",
+   text="memsim histories (C05/C13 alphabet plus get_or_fetch with ready / failing / never-resolving origins) on a single-shard Cache, all five algorithms; listener, weighter, memory filter and the Drop of every key and value owned by the cache are harness objects that read the lock probe (hook: shard RwLock or in-flight-table Mutex held => violation; exact on one thread, no timing) and, only if it is clear, perform a generated re-entrant get/contains/insert/remove on the same shard.",
+   note="Single thread, so a held lock seen by the probe is held by the caller. Destructors of user futures/closures (not keys or values) are outside the statement and not probed. Hybrid callbacks are probed by the hybsim checks; multi-threaded deadlock detection is not part of this check.",
+   technique="property-based testing with instrumented callbacks (lock probe + re-entrant operations), proptest random"),
+ "C17": dict(engine="memsim+fetchsim", category="exploration", design="§5 C17",
+   text="Key sets built to collide under a user-supplied hasher (full 64-bit collisions of 2..6 keys; same-shard / same-low-bits collisions): memsim histories with ample capacity under the exact reference model (every lookup of k returns k's own current entry, ops on k1 never change k2) and fetchsim histories over colliding keys under the single-flight protocol model (flights of colliding keys stay separate).",
+   note="Memory cache and in-flight table only in this round; the hybrid (disk index by hash, write queue, recovery) half is added with hybsim. contains() false positives on the disk tier are allowed by documentation.",
+   technique="model-based property testing with an adversarial user-supplied hasher (proptest random)"),
 }
 
 NOT_YET = {
@@ -68,9 +76,9 @@ def main():
             "add_only": True,
         },
         "engines": [
-            {"name": "memsim", "path": "/verif/harness/core/src/memsim.rs", "serves_properties": ["C05", "C13", "C14", "C18"],
+            {"name": "memsim", "path": "/verif/harness/core/src/memsim.rs", "serves_properties": ["C05", "C13", "C14", "C16", "C17", "C18"],
              "kind_free_text": "single-threaded interpreter for foyer::Cache histories + event-driven reference model (memoracle.rs) + eviction reference models (evmodel.rs)"},
-            {"name": "fetchsim", "path": "/verif/harness/core/src/fetchsim.rs", "serves_properties": ["C06", "C11"],
+            {"name": "fetchsim", "path": "/verif/harness/core/src/fetchsim.rs", "serves_properties": ["C06", "C11", "C17"],
              "kind_free_text": "manual executor for get_or_fetch histories: harness futures for disk lookup / origin fetch, harness-driven runtime, protocol state machine as oracle"},
         ],
         "checks": checks,
